@@ -443,7 +443,8 @@ def d_hostile(rng, names=None):
             st = "PULL"
         for (be, cork) in BACKENDS[:2]:
             cases.append({"k": "rawpeer", "stype": st, "opts": opts_for(base, be, cork), "writes": [[E.raw(data)]],
-                          "expect_msgs": 2, "hold_ms": 500, "recv_timeout_ms": 300,
+                          "expect_msgs": 2, "hold_ms": 1400, "recv_timeout_ms": 300,   # tokio keeps a failed session (and its stream) for its 1 s minimum lifespan (SessionRegulator)
+                         
                           "grp": "hostile:" + name, "be": be, "cork": cork, "cls": "hostile"})
     return cases
 
